@@ -288,3 +288,12 @@ def p2(ctx):
 
 
 RULES = [i1, i2, i3, i4, i5, i6, p2]
+
+
+@rule("I2w", doc="compile-fail witnesses: add / union need &mut EGraph; lookup / eq work through &EGraph", thorough_only=True, once=True)
+def i2w(ctx):
+    from salib import witness
+    witness.check(ctx, ['c09_add_through_shared', 'c09_union_through_shared'])
+
+
+RULES.append(i2w)
